@@ -51,13 +51,14 @@ def time_limit(seconds=None):
     """A library call that does not return within the limit is the outcome
     error:Timeout (judged by the action's `total` clause), not a hang."""
     seconds = seconds or CALL_LIMIT
-    old = signal.signal(signal.SIGALRM, _on_alarm)
-    signal.setitimer(signal.ITIMER_REAL, seconds)
+    # CPU time of this process, not wall-clock: a busy machine must never turn into a verdict
+    old = signal.signal(signal.SIGVTALRM, _on_alarm)
+    signal.setitimer(signal.ITIMER_VIRTUAL, seconds)
     try:
         yield
     finally:
-        signal.setitimer(signal.ITIMER_REAL, 0)
-        signal.signal(signal.SIGALRM, old)
+        signal.setitimer(signal.ITIMER_VIRTUAL, 0)
+        signal.signal(signal.SIGVTALRM, old)
 
 
 def errname(exc):
@@ -424,3 +425,32 @@ def gen_attr(model, naming, attr_abs, shape, leaves, seed):
         added.append(rec)
     # the generated attribute's domain token is not compared: mask it in the projection of NEW attributes only
     return {'a': 'GenAttr', 'args': args, 'out': out, 'post': post, 'anom': pj.anom, 'ret': {'added': added}}
+
+
+# ---------------------------------------------------------------------------
+# Equality and hashing (C20)
+def _cmp(errors, label, x, y):
+    eq = _bool(errors, label + '.eq', _call(errors, label + '.eq', lambda: x == y, False))
+    qe = _bool(errors, label + '.qe', _call(errors, label + '.qe', lambda: y == x, False))
+    ne = _bool(errors, label + '.ne', _call(errors, label + '.ne', lambda: x != y, True))
+    hx = _call(errors, label + '.hash', lambda: hash(x), 0)
+    hy = _call(errors, label + '.hash', lambda: hash(y), 1)
+    rx = _bool(errors, label + '.refl', _call(errors, label + '.refl', lambda: x == x and y == y, False))
+    return {'eq': eq, 'qe': qe, 'ne': ne, 'h': hx == hy, 'refl': rx}
+
+
+def compare(a, b, naming, how, edit):
+    pa, pb = Projector(naming), Projector(naming)
+    proj_a, fa, ra = pa.model(a)
+    proj_b, fb, rb = pb.model(b)
+    errors = []
+    ret = {'model': _cmp(errors, 'model', a, b)}
+    ret['feats'] = [dict(_cmp(errors, 'feature', x, y), i=i + 1, j=j + 1)
+                    for i, x in enumerate(fa) for j, y in enumerate(fb)]
+    ret['rels'] = [dict(_cmp(errors, 'relation', x, y), i=i + 1, j=j + 1)
+                   for i, x in enumerate(ra) for j, y in enumerate(rb)]
+    ret['ctcs'] = [dict(_cmp(errors, 'constraint', x, y), i=i + 1, j=j + 1)
+                   for i, x in enumerate(a.ctcs) for j, y in enumerate(b.ctcs)]
+    ret['errors'] = errors
+    return {'a': 'Compare', 'args': {'how': how, 'edit': edit}, 'out': 'value', 'post': proj_a, 'other': proj_b,
+            'anom': pa.anom + pb.anom, 'ret': ret}
